@@ -4,10 +4,64 @@ from lib import common as C, het as H
 
 GEN = ['HetFacts', 'Kernels']
 TRUSTED = ['smoothness of the user backward functions away from kinks', 'transitions and their exact linearisation (C08), nonlinear recursions (C09)']
-ASSUMPTIONS = ['proved: J_from_F closed form (horizon independence of the assembly) and the source facts of the differentiation dispatch; the fake-news = direct-linear-'
-               'recursion theorem of DESIGN 5.C01 was not built: the Jacobian is compared with central differences of the block\'s own impulse_nonlinear instead',
+ASSUMPTIONS = ['proved: fake-news construction = direct linear recursion for every (t, s) in an abstract linear system whose hypotheses (adjointness, mass preservation, '
+               'zero-mass shocks) are the C08 theorems; J_from_F closed form; source facts of the pipeline and the differentiation dispatch. NOT proved: that the numerical '
+               'derivatives of the backward function are the true derivatives (compared with central differences of the block\'s own impulse_nonlinear instead)',
                'StageBlock.jacobian takes no h/twosided options (always one-sided h=1e-4): compared with a looser tolerance']
-HEADER = 'From Coq Require Import ZArith List.\nFrom SSJ Require Import Model.HetLoop.\nImport ListNotations.\n'
+HEADER = ('From Coq Require Import ZArith List.\nFrom SSJ Require Import Model.HetLoop Model.FakeNews.\nImport ListNotations.\nOpen Scope Z_scope.\n'
+          'Definition fn_case (Tn n : nat) (Lam X0T : list (list Z)) (oss Ys : list Z) (Ds : list (list Z)) :=\n'
+          '  let w0 := matvec X0T oss in (fn_J_arr Tn Ys Ds (expvecZ (transposeZ n Lam) w0 (Tn - 1)%nat), direct_J_arr Tn Lam w0 Ys Ds).\n')
+
+
+class _Lom:
+    """stand-in for the CombinedTransition handed to HetBlock.expectation_vectors: integer matrices, any array shape"""
+    class _Stage:
+        def __init__(self, X):
+            self.X = X
+
+        def expectation(self, x):
+            return (self.X.T @ x.reshape(-1)).reshape(x.shape)
+
+    def __init__(self, Lam, X0):
+        self.Lam, self.first = Lam, _Lom._Stage(X0)
+
+    def __getitem__(self, i):
+        assert i == 0
+        return self.first
+
+    def expectation(self, x):
+        return (self.Lam.T @ x.reshape(-1)).reshape(x.shape)
+
+
+def gen_fakenews(rng):
+    """integer linear system with mass-preserving forward matrix (equal column sums) and zero-mass distribution perturbations;
+    state-space size a power of two so that demeaning is exact in binary floating point"""
+    N = rng.choice([2, 4, 4])
+    T = rng.randint(2, 6)
+    Lam = rng.imat(N, N, -2, 3)
+    c = rng.randint(-1, 3)
+    for j in range(N):
+        Lam[N - 1][j] = c - sum(Lam[i][j] for i in range(N - 1))
+    X0 = rng.imat(N, N, -2, 2)
+    oss = rng.ints(N, -4, 4)
+    Ys = rng.ints(T, -5, 5)
+    Ds = []
+    for _ in range(T):
+        d = rng.ints(N - 1, -3, 3)
+        Ds.append(d + [-sum(d)])
+    shape = [N] if N == 2 or rng.random() < 0.5 else [2, 2]
+    return dict(kind='fakenews', N=N, T=T, Lam=Lam, X0=X0, oss=oss, Ys=Ys, Ds=Ds, shape=shape)
+
+
+def run_fakenews_impl(c):
+    """the code's Parts 2-4 on the case: HetBlock.expectation_vectors (with demeaning), build_F, J_from_F"""
+    from sequence_jacobian.blocks.het_block import HetBlock
+    lom = _Lom(np.array(c['Lam'], dtype=float), np.array(c['X0'], dtype=float))
+    oss = np.array(c['oss'], dtype=float).reshape(c['shape'])
+    Es = HetBlock.expectation_vectors(None, oss, c['T'] - 1, lom)
+    Ds = np.array(c['Ds'], dtype=float).reshape([c['T']] + c['shape'])
+    F = HetBlock.build_F(np.array(c['Ys'], dtype=float), Ds, Es)
+    return HetBlock.J_from_F(F).tolist()
 
 
 def correspondence(ctx):
@@ -18,19 +72,40 @@ def correspondence(ctx):
     for _ in range(n):
         T = rng.randint(1, 7)
         F = rng.imat(T, T, -4, 4)
-        cases.append(dict(T=T, F=F))
+        cases.append(dict(kind='J_from_F', T=T, F=F))
         exprs.append(f'run_J {T}%nat {C.coq_list(F, lambda r: C.coq_list(r, lambda x: "(" + str(x) + ")%Z"))}')
-    vals, logs = C.eval_in_coq('C01', HEADER, exprs, chunk=100)
+    for _ in range(n):
+        c = gen_fakenews(rng)
+        cases.append(c)
+        X0T = [list(r) for r in zip(*c['X0'])]
+        exprs.append(f"fn_case {c['T']}%nat {c['N']}%nat {C.coq_mat(c['Lam'])} {C.coq_mat(X0T)} {C.coq_list(c['oss'])} {C.coq_list(c['Ys'])} {C.coq_mat(c['Ds'])}")
+    vals, logs = C.eval_in_coq('C01', HEADER, exprs[:n], chunk=100)
+    vals2, logs2 = C.eval_in_coq('C01', HEADER, exprs[n:], chunk=100, tag='fn')
+    vals, logs = vals + vals2, logs + logs2
     dis = []
     for c, vm in zip(cases, vals):
-        got = HetBlock.J_from_F(np.array(c['F'], dtype=float)).tolist()
-        model = None if vm is None else [[float(x) for x in r] for r in vm]
-        if model != got:
-            dis.append(dict(what='HetBlock.J_from_F', case=c, impl=got, model=model))
+        if c['kind'] == 'J_from_F':
+            got = HetBlock.J_from_F(np.array(c['F'], dtype=float)).tolist()
+            model = None if vm is None else [[float(x) for x in r] for r in vm]
+            if model != got:
+                dis.append(dict(what='HetBlock.J_from_F', case=c, impl=got, model=model))
+        else:
+            try:
+                got = run_fakenews_impl(c)
+            except Exception as ex:
+                got = f'raised {type(ex).__name__}: {ex}'
+            fn, direct = (None, None) if vm is None else ([[float(x) for x in r] for r in vm[0]], [[float(x) for x in r] for r in vm[1]])
+            if fn != direct:
+                dis.append(dict(what='model: fake-news assembly differs from the direct recursion (theorem instance)', case=c, fn=fn, direct=direct))
+            if got != direct:
+                dis.append(dict(what='HetBlock.expectation_vectors + build_F + J_from_F differ from the direct linear recursion of the model', case=c, impl=got, model=direct))
     for l in logs:
         dis.append(dict(what='coq evaluation failed', log=l))
-    return dict(evaluations=len(cases), distinct_nontrivial=len({C.canon(c) for c in cases}), rule='random integer fake-news matrices (T 1..7) through HetBlock.J_from_F vs the model recursion',
-                samples=cases[:2], disagreements=dis, stats={})
+    return dict(evaluations=len(cases), distinct_nontrivial=len({C.canon(c) for c in cases}),
+                rule='random integer fake-news matrices (T 1..7) through HetBlock.J_from_F vs the model recursion; random integer linear systems (2 or 4 states, flat or 2x2 state '
+                     'arrays, T 2..6, mass-preserving forward matrix, zero-mass distribution perturbations) through the code\'s expectation_vectors (demeaned) + build_F + J_from_F '
+                     'vs the model\'s fake-news assembly AND the model\'s direct linear recursion, exact',
+                samples=cases[:1] + cases[n:n + 1], disagreements=dis, stats=dict(fakenews_state_sizes=sorted({c['N'] for c in cases if c['kind'] == 'fakenews'})))
 
 
 def fd_column(blk, ss, i, s, T, h, outputs):
